@@ -106,6 +106,9 @@ def run(spec: str, cfg: str, *, workers: int | str = "auto", dump: str | None = 
         res.ok = False
         res.violated = m.group(1) or m.group(2) or "TemporalProperty"
         res.counterexample = _parse_trace(out)
+    elif (mp := re.search(r"Error: Postcondition (\w+) .* is false", out)) and out.count("Error:") == 1:
+        res.ok = False
+        res.violated = "Postcondition:" + mp.group(1)
     elif "Error:" in out or p.returncode not in (0,):
         # everything else that is not a clean finish is a machinery failure
         if "Model checking completed. No error has been found" not in out and \
